@@ -4380,3 +4380,7 @@ mod tests {
         assert!(!reloaded.has_dirty_buckets());
     }
 }
+
+#[cfg(kani)]
+#[path = "/verif/harness/anda_db_tfs/bm25.rs"]
+mod verif_kani;
